@@ -44,6 +44,12 @@ def skeleton2(rnd, cyc=0.3, symbolic=5):
             slot("p%ss0" % tag, t0)
             t1 = rnd.choice([0, 0] + [t for t in others + [4] if t != t0])
             slot("p%ss1" % tag, t1)
+            if rnd.random() < 0.08:
+                # a version that requires its own package with a further extra, under one of its extras
+                slot("p%ss1" % tag, pi + 1)
+                p["p%ss1r" % tag] = 0
+                p["p%ss1m" % tag] = rnd.choice([3, 4])
+                p["p%ss1e" % tag] = 1 if p["p%ss1m" % tag] == 4 else 2
     left = symbolic
     tags = ["r0", "r1", "r2", "q0"] + ["p%d%ds%d" % (pi, vi, s) for vi in range(3) for pi in (0, 1, 2, 4) for s in range(2)]
     for tag in tags:
